@@ -59,12 +59,16 @@ Check ==
                 tv |-> LET s == TermVars(P, R(i)) IN [k \in 1..Len(s) |-> Name(s[k])],
                 ord |-> ac[i]]]
       eq == [k \in 1..Len(PS) |-> <<R(PS[k][1]), R(PS[k][2])>> \in B]
-      cmpOf(vo) ==
-        LET cyc == CmpCycle(P, L, vo) IN
-        [k \in 1..Len(PS) |-> <<CmpLimit(cyc, R(PS[k][1]), R(PS[k][2])), CmpLimit(cyc, R(PS[k][2]), R(PS[k][1]))>>]
       voSeq(vo) == [k \in 1..Cardinality(V) |->
                       Name(CHOOSE v \in V : Cardinality({w \in V : vo[w] < vo[v]}) = k - 1)]
-      cmp == {[vo |-> voSeq(vo), c |-> cmpOf(vo)] : vo \in Permutations(V)}
+      cmpOf(vo) ==
+        LET cyc == CmpCycle(P, L, vo) IN
+        [vo |-> voSeq(vo),
+         c  |-> [k \in 1..Len(PS) |-> <<CmpLimit(cyc, R(PS[k][1]), R(PS[k][2])), CmpLimit(cyc, R(PS[k][2]), R(PS[k][1]))>>],
+         sane |-> \A p \in L \X L :
+                    /\ (CmpLimit(cyc, p[1], p[2]) = "=") <=> (p \in B)
+                    /\ CmpLimit(cyc, p[2], p[1]) = Flip(CmpLimit(cyc, p[1], p[2]))]
+      cmp == {cmpOf(vo) : vo \in Permutations(V)}
       cpOf(i) ==
         LET P2 == CopyGraph(P, R(i), K) r2 == R(i) + K IN
         [ac |-> Acyclic(P2, r2), gr |-> Ground(P2, r2), nv |-> Len(TermVars(P2, r2)),
@@ -75,24 +79,22 @@ Check ==
         IF ~u.ok THEN [ok |-> FALSE, eq |-> <<>>, ac |-> <<>>, gr |-> <<>>, sane |-> ~eq[k]]
         ELSE LET Q  == Quotient(P, L, u.cls)
                  BQ == Bisim(Q, L)
+                 RQ(i) == u.cls[R(i)]                                   \* what Xi stands for after the unification
              IN [ok |-> TRUE,
-                 eq |-> [j \in 1..Len(PS) |-> <<R(PS[j][1]), R(PS[j][2])>> \in BQ],
-                 ac |-> [i \in 1..n |-> Acyclic(Q, R(i))],
-                 gr |-> [i \in 1..n |-> Ground(Q, R(i))],
-                 sane |-> /\ <<R(PS[k][1]), R(PS[k][2])>> \in BQ        \* the two sides are now equal
-                          /\ B \subseteq BQ                              \* nothing equal became different
-                          /\ (eq[k] => BQ = B)]                          \* unifying equal terms changes nothing
+                 eq |-> [j \in 1..Len(PS) |-> <<RQ(PS[j][1]), RQ(PS[j][2])>> \in BQ],
+                 ac |-> [i \in 1..n |-> Acyclic(Q, RQ(i))],
+                 gr |-> [i \in 1..n |-> Ground(Q, RQ(i))],
+                 sane |-> /\ <<RQ(PS[k][1]), RQ(PS[k][2])>> \in BQ      \* the two sides are now equal
+                          /\ \A p \in B : <<u.cls[p[1]], u.cls[p[2]]>> \in BQ   \* nothing equal became different
+                          /\ (eq[k] => \A p \in L \X L : (<<u.cls[p[1]], u.cls[p[2]]>> \in BQ) <=> (p \in B))]
+                                                                         \* unifying equal terms changes nothing
       un2 == [k \in 1..Len(PS) |-> uOf(k)]
       (* ---- sanity of the operators (a failure is an error of the specification) ---- *)
       S1 == /\ \A i \in L : <<i, i>> \in B
             /\ \A p \in B : <<p[2], p[1]>> \in B
             /\ \A p, q \in B : p[2] = q[1] => <<p[1], q[2]>> \in B
       S2 == \A r \in L : Acyclic(P, r) <=> FiniteUnfolding(P, L, r)
-      S3 == \A vo \in Permutations(V) :
-              LET cyc == CmpCycle(P, L, vo) IN
-              \A p \in L \X L :
-                /\ (CmpLimit(cyc, p[1], p[2]) = "=") <=> (p \in B)
-                /\ CmpLimit(cyc, p[2], p[1]) = Flip(CmpLimit(cyc, p[1], p[2]))
+      S3 == \A r \in cmp : r.sane
       S4 == \A i \in 1..n : cp[i].sane
       S5 == \A k \in 1..Len(PS) : un2[k].sane
       S6 == \A p \in B : /\ Acyclic(P, p[1]) = Acyclic(P, p[2])
@@ -104,7 +106,9 @@ Check ==
      /\ Assert(S4, <<"copy is not a fresh variant", n, code>>)
      /\ Assert(S5, <<"unification sanity fails", n, code>>)
      /\ Assert(S6, <<"bisimilar nodes differ in acyclicity or variables", n, code>>)
-     /\ PrintT(ToJson([n |-> n, code |-> code, g |-> G, un |-> un, eq |-> eq, cmp |-> cmp,
+     /\ PrintT(ToJson([n |-> n, code |-> code, g |-> G,
+                       vn |-> [i \in 1..n |-> IF P[R(i)].k = "v" THEN Name(R(i)) ELSE 0],
+                       un |-> un, eq |-> eq, cmp |-> {[vo |-> r.vo, c |-> r.c] : r \in cmp},
                        cp |-> [i \in 1..n |-> [ac |-> cp[i].ac, gr |-> cp[i].gr, nv |-> cp[i].nv]],
                        un2 |-> [k \in 1..Len(PS) |-> [ok |-> un2[k].ok, eq |-> un2[k].eq, ac |-> un2[k].ac, gr |-> un2[k].gr]]]))
 =============================================================================
